@@ -230,7 +230,7 @@ prop(
 prop(
     id="C18",
     stages=[dict(name="c18", pkg="c18", test="TestC18", access=[], instrument=True,
-                 drift=["internal/raterun/runner.go::" + f for f in ["Runner.Restart", "Runner.Start", "Runner.Start.go", "Runner.Stop", "newSchedules", "schedules.start", "schedules.stop"]],
+                 drift=["internal/raterun::" + f for f in ["Runner.Restart", "Runner.Start", "Runner.Start.go", "Runner.Stop", "newSchedules", "schedules.start", "schedules.stop"]],
                  timeout_quick=300, timeout_thorough=3000)],
     rule="real raterun.Runner with 1-3 schedules (distinct frequencies 2-9ms, start delays 0-30ms), function durations 0-12ms, 0-2 Restarts at random instants, ending by Stop (75%) or by cancelling the context; "
          "in a third of the runs one invocation is held by the harness and Stop is called while it executes; the totally ordered event log (Start, FnStart k, FnEnd, Restart, StopCalled, StopReturned, Cancel) must be admissible "
@@ -243,11 +243,11 @@ prop(
 
 POOL_STAGE = dict(name="c02pool", pkg="c02", test="TestC02Pool", access=[WORKERS_ACCESS, POOL_ACCESS, RUN_ACCESS], timeout_quick=300, timeout_thorough=3000)
 
-POOL_DRIFT = ["internal/workers/trigger_pool.go::" + f for f in
+POOL_DRIFT = ["internal/workers::" + f for f in
               ["TriggerPool.Start", "TriggerPool.Start.go", "TriggerPool.Trigger", "TriggerPool.halt", "TriggerPool.maxIterationsReached",
                "TriggerPool.recordDropped", "TriggerPool.run", "TriggerPool.running", "TriggerPool.sendJobsForExecution", "TriggerPool.stop",
                "TriggerPool.waitForNewJobs", "jobCounter.none", "jobCounter.set", "jobCounter.take"]] + \
-             ["internal/workers/pool_manager.go::" + f for f in
+             ["internal/workers::" + f for f in
               ["PoolManager.NextIteration", "PoolManager.IterationsExhausted", "PoolManager.MaxIterationsReached", "PoolManager.WaitForCompletion"]]
 GATE_STAGE = dict(name="poolgate", pkg="c02", test="TestPoolGate", access=[WORKERS_ACCESS, POOL_ACCESS, RUN_ACCESS], instrument=True, drift=POOL_DRIFT,
                   timeout_quick=300, timeout_thorough=3000)
@@ -294,16 +294,16 @@ prop(
                  "monotonic clock readings of the harness; the last evaluated value may be refused by the pool because triggering had stopped"],
 )
 
-C05_DRIFT = ["internal/raterun/runner.go::Runner.Start", "internal/raterun/runner.go::Runner.Start.go", "internal/raterun/runner.go::Runner.Stop",
-             "internal/run/result.go::Result.Teardown", "internal/run/result.go::Result.Summary", "internal/run/result.go::Result.Error",
-             "internal/run/result.go::Result.Failed", "internal/run/result.go::Result.SnapshotProgress", "internal/run/result.go::Result.Progress",
-             "internal/run/result.go::Result.HasDroppedIterations", "internal/run/result.go::Result.GetTotals",
-             "internal/workers/trigger_pool.go::TriggerPool.halt", "internal/workers/trigger_pool.go::TriggerPool.sendJobsForExecution",
-             "internal/workers/trigger_pool.go::TriggerPool.waitForNewJobs", "internal/workers/trigger_pool.go::TriggerPool.Start.go",
-             "internal/run/test_runner.go::Run.Do", "internal/run/test_runner.go::Run.Do.go", "internal/run/test_runner.go::Run.run",
-             "internal/run/test_runner.go::newProgressRunner.func", "internal/workers/pool_manager.go::PoolManager.WaitForCompletion",
-             "internal/workers/pool_manager.go::PoolManager.WaitForCompletion.go", "internal/workers/continuous_pool.go::ContinuousPool.Start",
-             "internal/workers/continuous_pool.go::ContinuousPool.Start.go", "internal/workers/continuous_pool.go::ContinuousPool.startWorker"]
+C05_DRIFT = ["internal/raterun::Runner.Start", "internal/raterun::Runner.Start.go", "internal/raterun::Runner.Stop",
+             "internal/run::Result.Teardown", "internal/run::Result.Summary", "internal/run::Result.Error",
+             "internal/run::Result.Failed", "internal/run::Result.SnapshotProgress", "internal/run::Result.Progress",
+             "internal/run::Result.HasDroppedIterations", "internal/run::Result.GetTotals",
+             "internal/workers::TriggerPool.halt", "internal/workers::TriggerPool.sendJobsForExecution",
+             "internal/workers::TriggerPool.waitForNewJobs", "internal/workers::TriggerPool.Start.go",
+             "internal/run::Run.Do", "internal/run::Run.Do.go", "internal/run::Run.run",
+             "internal/run::newProgressRunner.func", "internal/workers::PoolManager.WaitForCompletion",
+             "internal/workers::PoolManager.WaitForCompletion.go", "internal/workers::ContinuousPool.Start",
+             "internal/workers::ContinuousPool.Start.go", "internal/workers::ContinuousPool.startWorker"]
 
 prop(
     id="C05",
